@@ -18,7 +18,7 @@ for f in sorted(glob.glob(d + "/check_*.txt")):
     if sigs:
         det[cid] = sorted(set(sigs))
 meta = {"property": prop, "needs": needs, "change": change, "detected_by": det, "history": hist,
-        "source": "fresh sub-agent (fourth wave) given only the property text, a note on which kinds of change already existed, and a scratch worktree",
+        "source": "fresh sub-agent (fourth or fifth wave) given only the property text, a note on which kinds of change already existed, and a scratch worktree",
         "what_was_run": "seed_verify.sh: demo test fails with / passes without the change; repository suite: all 550 stable tests pass with the change; patch applied to /repo, quick checks run, /repo reverted (see the *.txt files)"}
 json.dump(meta, open(d + "/meta.json", "w"), indent=1)
 print(json.dumps(det))
